@@ -889,10 +889,15 @@ impl Run {
             let _ = std::fs::create_dir_all(&replay_dir);
             let item = v.case["_item"].as_u64();
             let h = fnv(&format!("{}{}{}", fam, v.signature, v.case));
-            let path = replay_dir.join(format!("{h:016x}.json"));
+            let variant = std::env::var("VERIF_VARIANT").ok().filter(|v| !v.is_empty());
+            let path = match &variant {
+                Some(v) => replay_dir.join(format!("{v}-{h:016x}.json")),
+                None => replay_dir.join(format!("{h:016x}.json")),
+            };
             let body = json!({
                 "property": self.prop,
                 "tier": self.tier_arg,
+                "variant": variant,
                 "family": fam,
                 "item": item,
                 "signature": v.signature,
@@ -970,6 +975,30 @@ impl Run {
         for (k, v) in &self.extra {
             coverage.insert(k.clone(), v.clone());
         }
+        let variant = std::env::var("VERIF_VARIANT").ok().filter(|v| !v.is_empty());
+        if let Some(v) = &variant {
+            coverage.insert("build_variant".into(), json!(format!("subject built with cargo feature(s) `{v}`")));
+        }
+        // passes of the same check on other builds of the subject (run by ./check before this one)
+        if let Ok(list) = std::env::var("VERIF_VARIANT_EVIDENCE") {
+            let mut runs = vec![];
+            for path in list.split(':').filter(|p| !p.is_empty()) {
+                match std::fs::read_to_string(path).ok().and_then(|t| serde_json::from_str::<Value>(&t).ok()) {
+                    Some(e) => runs.push(json!({
+                        "build": e["coverage"]["build_variant"],
+                        "tier": e["tier"],
+                        "evaluations": e["coverage"]["evaluations"],
+                        "distinct_nontrivial": e["coverage"]["distinct_nontrivial"],
+                        "exhaustive": e["coverage"]["exhaustive"],
+                        "violations": e["violations"],
+                        "wall_s": e["wall_s"],
+                        "evidence": path,
+                    })),
+                    None => runs.push(json!({"evidence": path, "error": "the variant pass left no evidence (it failed before finishing; see the exit code of ./check)"})),
+                }
+            }
+            coverage.insert("feature_variant_passes".into(), json!(runs));
+        }
         let n_unknown = unknown.len() as i64;
         let evidence = json!({
             "property_id": self.prop,
@@ -985,6 +1014,11 @@ impl Run {
         let evidence_dir = std::env::var("VERIF_EVIDENCE_DIR")
             .map(PathBuf::from)
             .unwrap_or_else(|_| self.root.join("evidence"));
+        // a pass on another build of the subject keeps its evidence apart from the check's own
+        let evidence_dir = match &variant {
+            Some(v) => evidence_dir.join("variants").join(v),
+            None => evidence_dir,
+        };
         let _ = std::fs::create_dir_all(&evidence_dir);
         let epath = evidence_dir.join(format!("{}.json", self.prop));
         if let Err(e) = std::fs::write(&epath, serde_json::to_string_pretty(&evidence).unwrap()) {
@@ -992,12 +1026,14 @@ impl Run {
             std::process::exit(EXIT_MACHINERY);
         }
         // a per-tier copy, so that a quick run does not erase what the last thorough run covered
-        let tdir = evidence_dir.join(&self.tier_arg);
-        let _ = std::fs::create_dir_all(&tdir);
-        let _ = std::fs::write(
-            tdir.join(format!("{}.json", self.prop)),
-            serde_json::to_string_pretty(&evidence).unwrap(),
-        );
+        if variant.is_none() {
+            let tdir = evidence_dir.join(&self.tier_arg);
+            let _ = std::fs::create_dir_all(&tdir);
+            let _ = std::fs::write(
+                tdir.join(format!("{}.json", self.prop)),
+                serde_json::to_string_pretty(&evidence).unwrap(),
+            );
+        }
 
         // summary
         for r in &self.reports {
@@ -1023,9 +1059,13 @@ impl Run {
             println!("{l}");
         }
         println!(
-            "{} {} evaluations={} distinct_nontrivial={} exhaustive={} unknown_violations={} wall={:.1}s evidence={}",
+            "{} {}{} evaluations={} distinct_nontrivial={} exhaustive={} unknown_violations={} wall={:.1}s evidence={}",
             self.prop,
             self.tier_arg,
+            match &variant {
+                Some(v) => format!("[features={v}]"),
+                None => String::new(),
+            },
             evaluations,
             nontrivial,
             exhaustive,
